@@ -251,14 +251,14 @@ package mod
 //@   requires h != nil && h.sc != nil && ctx != nil && ctx.Context != nil
 //@   requires aggData(ctx) == nil || (typeis(aggData(ctx), *RefreshFuncContext) && aggData(ctx).(*RefreshFuncContext) != nil)   // set by Step
 //@   requires imp(s3db.inMemoryS3 != nil, s3db.inMemoryS3.Client != nil)
-//@   modifies puts, deletes, deleteFailures, lists, lastPutPrefix, lastPutName, lastPutOK, s3db.inMemoryS3, s3db.inMemoryBucket, s3db.tables[refreshName(ctx)].Tree, gf(ctx.Context.ptr, "resKind")
+//@   modifies puts, deletes, deleteFailures, lists, listNext, listTruncated, listedKeys, lastPutPrefix, lastPutName, lastPutOK, s3db.inMemoryS3, s3db.inMemoryBucket, s3db.tables[refreshName(ctx)].Tree, gf(ctx.Context.ptr, "resKind")
 //@   ensures readonly-table-no-write: imp(aggData(ctx) != nil && has(s3db.tables, refreshName(ctx)) && s3db.tables[refreshName(ctx)] != nil && s3db.tables[refreshName(ctx)].S3Options.ReadOnly, puts == old(puts) && deletes == old(deletes))
 //@   ensures no-call-no-effect: imp(aggData(ctx) == nil, puts == old(puts) && deletes == old(deletes) && lists == old(lists))
 //@   ensures imp(s3db.inMemoryS3 != nil, s3db.inMemoryS3.Client != nil)
 
 //@ func loadForDiffing
 //@   requires imp(s3db.inMemoryS3 != nil, s3db.inMemoryS3.Client != nil)
-//@   modifies lists, lastPutPrefix, lastPutName, lastPutOK, puts, deletes, deleteFailures, s3db.inMemoryS3, s3db.inMemoryBucket
+//@   modifies lists, listNext, listTruncated, listedKeys, lastPutPrefix, lastPutName, lastPutOK, puts, deletes, deleteFailures, s3db.inMemoryS3, s3db.inMemoryBucket
 //@   ensures never-writes: puts == old(puts) && deletes == old(deletes)
 //@   ensures named-no-list: imp(versions != nil, lists == old(lists))
 //@   ensures named-all-merged: forall j int :: imp(err == nil && versions != nil && 0 <= j && j < len(versions), has(result0.Root.mergedRoots, versions[j]))
@@ -272,7 +272,7 @@ package mod
 //@ func (*ChangesTable).Open
 //@   requires c != nil && c.module != nil && c.module.sc != nil && c.table != nil && c.table.Tree != nil && c.table.Tree.Root != nil && dbOK(c.table.Tree.Root)
 //@   requires imp(s3db.inMemoryS3 != nil, s3db.inMemoryS3.Client != nil)
-//@   modifies lists, lastPutPrefix, lastPutName, lastPutOK, puts, deletes, deleteFailures, s3db.inMemoryS3, s3db.inMemoryBucket
+//@   modifies lists, listNext, listTruncated, listedKeys, lastPutPrefix, lastPutName, lastPutOK, puts, deletes, deleteFailures, s3db.inMemoryS3, s3db.inMemoryBucket
 //@   ensures never-writes: puts == old(puts) && deletes == old(deletes)
 //@   ensures named-no-list: imp(c.fromVer != nil && c.toVer != nil, lists == old(lists))
 //@   ensures cursor: imp(result1 == nil, typeis(result0, *ChangesCursor) && result0.(*ChangesCursor) != nil && !result0.(*ChangesCursor).eof && result0.(*ChangesCursor).diffCursor != nil &&
@@ -395,7 +395,7 @@ package mod
 //@   modifies nothing
 //@ func (*Module).Connect
 //@   requires declare != nil && c != nil && c.sc != nil && len(args) >= 3 && imp(s3db.inMemoryS3 != nil, s3db.inMemoryS3.Client != nil)
-//@   modifies contents(s3db.tables), puts, deletes, deleteFailures, lists, lastPutPrefix, lastPutName, lastPutOK, s3db.inMemoryS3, s3db.inMemoryBucket
+//@   modifies contents(s3db.tables), puts, deletes, deleteFailures, lists, listNext, listTruncated, listedKeys, lastPutPrefix, lastPutName, lastPutOK, s3db.inMemoryS3, s3db.inMemoryBucket
 //@   at call:s3db.New assert statement-context: arg0 == c.sc.ctx && len(arg1) == len(args) - 2
 //@   at call:s3db.New assert table-name-and-options: forall j int :: imp(0 <= j && j < len(arg1), arg1[j] == args[j + 2])
 //@   ensures connected: imp(err == nil, typeis(result0, *VirtualTable) && result0.(*VirtualTable) != nil && result0.(*VirtualTable).module == c && result0.(*VirtualTable).common != nil && s3db.tables[old(args[2])] == result0.(*VirtualTable).common && has(s3db.tables, old(args[2])))
@@ -406,7 +406,7 @@ package mod
 //@   modifies nothing
 //@ func (*Module).Create
 //@   requires declare != nil && c != nil && c.sc != nil && len(args) >= 3 && imp(s3db.inMemoryS3 != nil, s3db.inMemoryS3.Client != nil)
-//@   modifies contents(s3db.tables), puts, deletes, deleteFailures, lists, lastPutPrefix, lastPutName, lastPutOK, s3db.inMemoryS3, s3db.inMemoryBucket
+//@   modifies contents(s3db.tables), puts, deletes, deleteFailures, lists, listNext, listTruncated, listedKeys, lastPutPrefix, lastPutName, lastPutOK, s3db.inMemoryS3, s3db.inMemoryBucket
 //@   at call:mod.(*Module).Connect assert same-arguments: arg0 == c && arg1 == conn && arg2 == args
 //@   ensures connected: imp(err == nil, typeis(result0, *VirtualTable) && result0.(*VirtualTable) != nil && result0.(*VirtualTable).module == c && result0.(*VirtualTable).common != nil && s3db.tables[old(args[2])] == result0.(*VirtualTable).common && has(s3db.tables, old(args[2])))
 //@   ensures rejected-leaves-no-table: forall k string :: imp(err != nil, has(s3db.tables, k) == old(has(s3db.tables, k)) && s3db.tables[k] == old(s3db.tables[k]))
